@@ -93,6 +93,16 @@ def make_data(case):
     return I, y, w, single
 
 
+def spell_lamb(lamb, sel):
+    """The same number as np.float64 / 0-d array / (where exact) np.float32, np.int64, np.float16."""
+    opts = [np.array(lamb), np.float64(lamb), np.array([lamb])[0:1].reshape(())]
+    if float(np.float32(lamb)) == lamb:
+        opts += [np.float32(lamb), np.float32(lamb), np.float16(lamb)] if float(np.float16(lamb)) == lamb else [np.float32(lamb)] * 2
+    if float(int(lamb)) == lamb and lamb >= 1:
+        opts += [np.int64(int(lamb)), np.int32(int(lamb)), np.array(int(lamb))]
+    return opts[sel % len(opts)]
+
+
 def J_of(Y, I, y, w, lamb):
     pred = dense(Y)[tuple(I.T)]
     res = (pred - y) ** 2
@@ -225,6 +235,12 @@ def prop_als(case, ctx):
     # list spelling of the data gives the same result
     Yl = ctx.lib(teneva.als, I.tolist(), y.tolist(), Y0, nswp, None, {}, lamb=lamb, w=w)
     ctx.check(all(np.array_equal(p_, q_) for p_, q_ in zip(Yl, Y)), "als: list and ndarray spelling of the data give different results")
+    # the same regularisation number spelled as a NumPy scalar / 0-d array (lamb is documented as float; a value read from an array is one)
+    spell = spell_lamb(lamb, case["pseed"])
+    ctx.label("lamb_as:" + type(spell).__name__ + ("/" + spell.dtype.name if hasattr(spell, "dtype") else ""))
+    Yn = ctx.lib(teneva.als, I, y, Y0, nswp, None, {}, lamb=spell, w=w)
+    ctx.check(all(np.array_equal(p_, q_) for p_, q_ in zip(Yn, Y)), "als: the same lamb given as a NumPy scalar / 0-d array gives a different result",
+              lamb=lamb, spelled=repr(spell))
     # (h) callback returning True at sweep s stops right after that sweep
     s = 1 + case["pseed"] % nswp
     cnt = [0]
@@ -426,6 +442,11 @@ def prop_func(case, ctx):
     Ap = ctx.lib(teneva.als_func, X[perm], y[perm], A0, a, b, nswp, None, {}, lamb=lamb, thr_pow=0., **kwg)
     ctx.check(oracle.shape_of(Ap) == oracle.shape_of(A) and (not stable or rel_diff(Ap, A) <= tol), "als_func: result (or its mode sizes) depends on the order of the samples",
               diff=rel_diff(Ap, A) if oracle.shape_of(Ap) == oracle.shape_of(A) else None, tol=tol)
+    spell = spell_lamb(lamb, case["dseed"])
+    ctx.label("lamb_as:" + type(spell).__name__ + ("/" + spell.dtype.name if hasattr(spell, "dtype") else ""))
+    An = ctx.lib(teneva.als_func, X, y, A0, a, b, nswp, None, {}, lamb=spell, thr_pow=0., **kwg)
+    ctx.check(oracle.shape_of(An) == oracle.shape_of(A) and all(np.array_equal(p_, q_) for p_, q_ in zip(An, A)),
+              "als_func: the same lamb given as a NumPy scalar / 0-d array gives a different result", lamb=lamb, spelled=repr(spell))
     # default thr_pow: only shape <= initial (<= n_max) and ranks are claimed
     Ad = ctx.lib(teneva.als_func, X, y, A0, a, b, nswp, None, {}, lamb=lamb, **kwg)
     ctx.check(oracle.wellformed(Ad) is None and all(p_ <= nn + grow for p_ in oracle.shape_of(Ad)) and oracle.ranks_of(Ad) == oracle.ranks_of(A0),
